@@ -196,6 +196,11 @@ func genC05(rt *rapid.T) c05Case {
 		if c.M.Accepted {
 			c.M = genSshdMsgForm(rt, "failed_password")
 		}
+		if rapid.IntRange(0, 2).Draw(rt, "hostile") == 0 {
+			// a failure line whose client-chosen name is hostile
+			h := genHostile(rt)
+			c.M = sshdMsg{Form: "hostile:" + h.Form, PID: h.PID, Msg: h.Message()}
+		}
 		c.Fault = pick(rt, "fault", []string{"none", "none", "encoder_error"})
 	default:
 		j := genJunk(rt)
@@ -899,3 +904,62 @@ func execC07Fifo(c c07FifoCase) Outcome {
 }
 
 func TestC07_Fifo(t *testing.T) { RunProp(t, "c07.fifo", genC07Fifo, execC07Fifo) }
+
+
+// ---------------------------------------------------------------------------
+// C10 (processor level) — for all hand-off orders the UserLogin is written
+// before the login can reach the correlator. Only the order is judged here.
+
+func execC10Handoff(m sshdMsg) Outcome {
+	rec := &Rec{}
+	called := make(chan struct{})
+	var once sync.Once
+	rec.Hook = func() { once.Do(func() { close(called) }) }
+	logins := make(chan common.RemoteUserLogin)
+	mp := metrics.NewPrometheusMetricsProviderForRegisterer(prometheus.NewRegistry())
+	ctx, cancel := context.WithCancel(context.Background())
+	defer cancel()
+	proc := sshd.NewSshdProcessor(ctx, logins, vhNode, vhMachineID, newWriter(rec), mp)
+	done := make(chan error, 1)
+	go func() { done <- proc.ProcessSshdLogEntry(ctx, sshd.SshdLogEntry{PID: m.PID, Message: m.Msg}) }()
+	// the correlator becomes ready only after the write was attempted (or a grace period)
+	select {
+	case <-called:
+	case <-time.After(300 * time.Millisecond):
+	case err := <-done:
+		return fail("accepted line %q returned (%v) without handing a login over", m.Msg, err)
+	}
+	select {
+	case l := <-logins:
+		if rec.Len() == 0 {
+			return fail("the login of pid %d reached the correlator before its UserLogin event was written (line %q): a UserAction carrying its identity can precede the UserLogin in the output", l.PID, m.Msg)
+		}
+	case <-time.After(10 * time.Second):
+		return fail("no login handed over within 10s for %q", m.Msg)
+	}
+	select {
+	case <-done:
+	case <-time.After(10 * time.Second):
+		return fail("processing did not return after the hand-off")
+	}
+	return Outcome{NT: true, Labels: []string{"form:" + m.Form}}
+}
+
+func TestC10_Handoff(t *testing.T) {
+	RunProp(t, "c10.handoff", func(rt *rapid.T) sshdMsg { return genSshdMsgForm(rt, pick(rt, "form", acceptedForms)) }, execC10Handoff)
+}
+
+// FuzzC06 drives the C06 property with rapid's generators fed from the native
+// coverage-guided fuzzer's byte stream (thorough tier).
+func FuzzC06(f *testing.F) {
+	f.Add([]byte{0})
+	f.Add([]byte("seed corpus: any bytes; rapid decodes them into a structured message"))
+	f.Fuzz(rapid.MakeFuzz(func(rt *rapid.T) {
+		m := genSshdMsg(rt)
+		o := safeExec(execC06, m)
+		if o.Err != nil {
+			writeFail("c06.forms", m, o.Err)
+			rt.Fatalf("step=c06.forms: %v", o.Err)
+		}
+	}))
+}
